@@ -35,6 +35,11 @@ CHECKS = {
   note="bounded: depth <=2 (+ depth-3 if-value forms), <=4 unknowns, completion universes of 2-7 values; satisfaction judged by x/exp/eval.Eval (conformance is C01); forbid under ignore not constrained by the property",
   tech="bounded-exhaustive enumeration of policies x partial environments x completions with a soundness oracle (original vs residual under each completion)",
   ref="DESIGN.md §5 C06"),
+ "C07": dict(
+  text="bounded-exhaustive enumeration of policy ASTs rendered by a reference printer written from the documented grammar: every operator form, every (parent, operand position, child) pairing (depth 2), depth 3 over one or more operators per grammar level, all scope forms x annotations x condition lists, each in fully parenthesised and minimal-parenthesis mode x 4 layouts; parse(render(T)) must equal T by reflect.DeepEqual on Policy.AST(); plus a literal/escape table with expected values and a generated rejection table (all chained relation pairs, reserved words in every identifier position, duplicates, every extension function/method misuse, malformed heads)",
+  note="bounded: depth <=3 over the stated alphabets; Negate(non-negative literal) and extension/set/record VALUES are outside the text-expressible domain; >4 stacked unary operators, trailing commas and /* */ comments not asserted either way",
+  tech="bounded-exhaustive enumeration of ASTs x renderings against a reference printer (grammar-directed), with generated negative tables",
+  ref="DESIGN.md §5 C07"),
  "C20": dict(
   text="explicit-state BFS over all container operation histories up to the stated depth from 14 initial states, every transition executed on the real PolicySet and compared with a Go-map model and the authorization decision table",
   note="bounded: ids {a, policy1, policy10, policy2}+loaded ids, 5 policy kinds, depth 4 (quick) / 6 (thorough); model = plain Go map",
